@@ -7,6 +7,7 @@ import (
 	"path/filepath"
 	"runtime"
 	"sort"
+	"strconv"
 	"strings"
 	"sync"
 	"sync/atomic"
@@ -158,6 +159,65 @@ type Checker struct {
 	triageEx    map[string]string
 	maxPrint    int
 	replayDir   string
+	inflight    sync.Map // case id -> start time (watchdog)
+	progress    int64    // work units completed outside Case / Note (watchdog only)
+}
+
+// Tick tells the watchdog that work outside Case / Note is progressing (long sweeps).
+func (c *Checker) Tick() { atomic.AddInt64(&c.progress, 1) }
+
+// watchdog: a library call that never returns (a leaked semaphore slot, a lock that is never released, a lost
+// wake-up) would leave the check hanging until the wall-clock limit and so without a verdict. When no case has
+// completed for the stall limit (10 min quick / 30 min thorough; VERIF_STALL_S overrides) the oldest cases in flight
+// are reported as a violation of kind "hang", with the stacks of the goroutines inside the library, and the check
+// exits 1. The limit is two orders of magnitude above the slowest case on the unchanged tree.
+func (c *Checker) watchdog() {
+	limit := 600 * time.Second
+	if c.Tier == "thorough" {
+		limit = 1800 * time.Second
+	}
+	if v, err := strconv.Atoi(os.Getenv("VERIF_STALL_S")); err == nil && v > 0 {
+		limit = time.Duration(v) * time.Second
+	}
+	last, lastChange := int64(-1), time.Now()
+	for {
+		time.Sleep(5 * time.Second)
+		if n := atomic.LoadInt64(&c.evals) + atomic.LoadInt64(&c.progress); n != last {
+			last, lastChange = n, time.Now()
+			continue
+		}
+		if time.Since(lastChange) < limit {
+			continue
+		}
+		var ids []string
+		c.inflight.Range(func(k, v any) bool {
+			if time.Since(v.(time.Time)) >= limit {
+				ids = append(ids, k.(string))
+			}
+			return true
+		})
+		sort.Strings(ids)
+		if len(ids) > 8 {
+			ids = ids[:8]
+		}
+		buf := make([]byte, 1<<22)
+		buf = buf[:runtime.Stack(buf, true)]
+		var keep []string
+		for _, g := range strings.Split(string(buf), "\n\n") {
+			if strings.Contains(g, "advancedclimatesystems/gonnx") {
+				keep = append(keep, truncate(g, 1500))
+			}
+			if len(keep) >= 6 {
+				break
+			}
+		}
+		info := CaseInfo{ID: "hang/" + strings.Join(ids, " | "), NonTrivial: true}
+		v := &Violation{Kind: "hang", Detail: fmt.Sprintf("no case has completed for %v; in flight since then: %v; goroutines inside the library: %s", limit, ids, strings.Join(keep, " ||| ")),
+			Replay: map[string]any{"replay_kind": "hang", "cases": ids}}
+		c.Record(info, "hang", v)
+		fmt.Printf("SUMMARY property=%s tier=%s evaluations=%d aborted: a library call did not return\n", c.Prop, c.Tier, atomic.LoadInt64(&c.evals))
+		os.Exit(1)
+	}
 }
 
 func NewChecker(prop, tier, level string) *Checker {
@@ -175,6 +235,7 @@ func NewChecker(prop, tier, level string) *Checker {
 	if os.Getenv("VERIF_TRIAGE") != "" {
 		c.triage, c.triageEx, c.maxPrint = map[string]int{}, map[string]string{}, 0
 	}
+	go c.watchdog()
 	return c
 }
 
@@ -197,6 +258,8 @@ func (c *Checker) Expired() bool {
 // Case evaluates one case. run returns nil when the property held. On violation the case is
 // re-executed 4 more times; only a 5/5 failure is a violation (else FLAKY harness error).
 func (c *Checker) Case(info CaseInfo, run func() *Violation) {
+	c.inflight.Store(info.ID, time.Now())
+	defer c.inflight.Delete(info.ID)
 	c.excl.RLock()
 	v := run()
 	c.excl.RUnlock()
